@@ -48,3 +48,8 @@ CLAIMS["C08"] = (
     "Generated pools of tables (repeats, NaN holes, duplicate and near-equal ids, non-default row labels) and histories of up to 10 set/renumbering operations; after every step the 20-column invariant and row-by-row equality with the model (or admissibility where the statement leaves a choice) are checked, and inputs of non-mutating operations must be unchanged. Held on everything explored.",
     "Trusts the pure-Python model of the nine operations as written from the property text; NaN identified with 0.",
 )
+CLAIMS["C09"] = (
+    "property-based differential test against a per-particle brute-force inside predicate (no KD-tree, no vectorised index mapping)",
+    "Generated particle clouds placed on, inside and beyond every face with non-zero shifts, 1..4 tomograms with own dimensions/masks/points; the four filters' survivor lists are compared (set, order, all fields) with the analytic predicate. Held on everything explored except the listed known finding (lower faces never tested in out-of-bounds removal), which is reported as KNOWN-FINDING and excluded by exact signature.",
+    "Dimension tables list every tomogram; distance ties and positions in (-1,0) for masks are excluded by construction/filter.",
+)
